@@ -84,6 +84,15 @@ fn counts(xs: &[u64]) -> BTreeMap<u64, usize> {
 /// C23 oracle: the documented result of the blocking operator computed directly from the source
 /// inputs (the pass-through pipelines in front of it preserve the multiset of items).
 fn blocking_oracle(p: &ProgInfo, tag: &str, sigp: &str, inputs: &[Vec<Vec<u64>>], outs: &[Vec<Vec<String>>], rec: &mut Recorder) {
+    if let Some(rest) = tag.strip_prefix("evens ") {
+        // the pipeline starts with `partition(2)` whose port `[0]` (items with hv(x) % 2 == 0, i.e. the even
+        // ones) leads to the operator; port `[1]` is dropped
+        let mut f: Vec<Vec<Vec<u64>>> = inputs.to_vec();
+        for tick in f[0].iter_mut() {
+            tick.retain(|x| x % 2 == 0);
+        }
+        return blocking_oracle(p, rest, sigp, &f, outs, rec);
+    }
     let w: Vec<&str> = tag.split(' ').collect();
     if w.is_empty() || tag.is_empty() {
         return;
@@ -553,7 +562,7 @@ fn main() {
     let args = Args::parse();
     hv_common::quiet_panics();
     let mut rec = Recorder::new(
-        "one case = one compiled dfir_syntax! program of the corpus (operator x persistence x {plain, behind-tee, before-union} contexts, random DAGs, blocking-input pipelines, shape-perturbed variants) run tick by tick on a generated input history (2-6 ticks, 0-7 items per source and tick, small domains); non-trivial = some sink emitted an item; distinct = distinct (program, history) texts",
+        "one case = one compiled dfir_syntax! program of the corpus (operator x persistence x {plain, behind-tee, before-union} contexts, random DAGs, blocking-input pipelines incl. unary union()/tee() chains directly at every blocking input port, shape-perturbed variants incl. unary union/tee at every port of every two-input operator) run tick by tick on a generated input history (2-6 ticks, 0-7 items per source and tick, small domains); non-trivial = some sink emitted an item; distinct = distinct (program, history) texts",
     );
     let mode = args.mode.clone();
     if !["c21", "c22", "c23"].contains(&mode.as_str()) {
